@@ -137,14 +137,15 @@ where
         I: IntoIterator<Item = (S, P)>,
     {
         let mut population_map = population::Map::default();
+        let mut map = IndexMap::new();
 
-        Self(IndexMap::from_iter(iter.into_iter().map(
-            |(sample_name, population_name)| {
-                (
-                    sample_name.into(),
-                    population_map.get_or_insert(population_name.into()),
-                )
-            },
-        )))
+        // A sample listed more than once keeps its first population. In particular, a later
+        // conflicting entry must not register a population that ends up without any samples.
+        for (sample_name, population_name) in iter {
+            map.entry(sample_name.into())
+                .or_insert_with(|| population_map.get_or_insert(population_name.into()));
+        }
+
+        Self(map)
     }
 }
